@@ -15,7 +15,8 @@ pub struct Win {
 }
 
 /// What the simulated caller does with a returned drain / by-value iterator:
-/// `acts` is a sequence of 0 = next, 1 = next_back, 2 = len(), 3 = size_hint();
+/// `acts` is a sequence of 0 = next, 1 = next_back, 2 = len(), 3 = size_hint(),
+/// 4 + 2k = nth(k), 5 + 2k = nth_back(k) (the skipped elements are consumed - and dropped - by the guard);
 /// afterwards the guard is dropped, or leaked with `mem::forget` when `leak` is set.
 #[derive(Clone, Debug, PartialEq, Eq, Serialize, Deserialize, Default)]
 pub struct Script {
@@ -130,6 +131,8 @@ pub enum Op {
     WithCapacity { n: usize },
     DefaultNew,
     CloneSelf,
+    /// `arr.clone_from(&src)` with a freshly built source of shape (c, r)
+    CloneFrom { c: usize, r: usize, extra_cap: usize },
     FromView { win: Win, mutable: bool },
     // ---- structural edits
     InsertRow { idx: usize, len: usize, lie: Lie },
@@ -174,6 +177,7 @@ impl Op {
             Op::WithCapacity { .. } => "with_capacity",
             Op::DefaultNew => "default",
             Op::CloneSelf => "clone",
+            Op::CloneFrom { .. } => "clone_from",
             Op::FromView { .. } => "from_view",
             Op::InsertRow { .. } => "insert_row",
             Op::PushRow { .. } => "push_row",
